@@ -80,7 +80,7 @@ type poolRun struct {
 	haveOf                     map[int]int  // task -> index of its park at 1702 (not yet released)
 	connOf                     map[int]int  // task -> connection id it holds
 	nextConn                   int
-	killedInHand               map[int]bool // connections killed while held by a connect (trigger of F-C17-2)
+	killedInHand               map[int]bool // connections killed while held by a connect (the former F-C17-2 situation)
 	reportedDead               map[int]bool
 	steps                      []string // Coq terms: (labels, observation)
 	ops                        []string // human-readable
@@ -221,11 +221,8 @@ func (r *poolRun) record(op string, labels []string) poolObs {
 			continue
 		}
 		r.reportedDead[id] = true
-		f := ""
-		if r.killedInHand[id] {
-			f = "F-C17-2"
-		}
-		r.viol = append(r.viol, violation{"closed-conn-in-pool", f, fmt.Sprintf("after %q: connection %d is closed but still in the pool (all goroutines blocked, no HandleError pending)", op, id)})
+		// (F-C17-2, fixed: a connection killed while connect held it must not be pooled either)
+		r.viol = append(r.viol, violation{"closed-conn-in-pool", "", fmt.Sprintf("after %q: connection %d is closed but still in the pool (all goroutines blocked, no HandleError pending)", op, id)})
 	}
 	if o.filling && o.dialing == 0 && o.have == 0 {
 		r.viol = append(r.viol, violation{"filling-stuck", "", fmt.Sprintf("after %q: pool.filling is set although every goroutine is blocked and no connect is in progress: the pool will never be filled again", op)})
